@@ -341,6 +341,17 @@ Theorem C16_method_name_write_dropped_refuted :
 Proof. exact method_name_write_dropped_refuted. Qed.
 Print Assumptions C16_method_name_write_dropped_refuted.
 
+(* a single function given for a variadic slot of func type arrives as a nil func
+   (the tail-as-one-argument rule meets "anything with a length is a slice");
+   with two functions, or in the ideal machine, the functions arrive *)
+Theorem C16_variadic_single_function_refuted :
+  call false false 6 [TNum KI; TSlice TFunc] true [JNum (KI64, 1); JFun 1] = CV (GVStruct [GVI KI 1; GVSlice [GVNil]]) /\
+  call true true 6 [TNum KI; TSlice TFunc] true [JNum (KI64, 1); JFun 1] = CV (GVStruct [GVI KI 1; GVSlice [GVFunc]]) /\
+  call false false 6 [TNum KI; TSlice TFunc] true [JNum (KI64, 1); JFun 1; JFun 1] =
+    CV (GVStruct [GVI KI 1; GVSlice [GVFunc; GVFunc]]).
+Proof. exact variadic_single_function_refuted. Qed.
+Print Assumptions C16_variadic_single_function_refuted.
+
 (* non-vacuity of the implications above *)
 Example C16_exact_hyp_met :
   src_wf (KF64, 4617315517961601024) = true /\
